@@ -216,11 +216,15 @@ class Evaluator:
             bind.setdefault(prm, ('unknown', 'unbound', prm))
         return fi, bind
 
-    def _splice(self, s: State, q: State):
-        for e in q.events:
+    def _splice(self, s: State, q: State, call_node=None, events=None):
+        # spliced events live in the callee's frame: the marker records the call site, so that
+        # guards_of can combine the tests enclosing the call site (caller's frame) with the
+        # tests enclosing the construct inside the callee
+        mark = (('inlined', call_node),) if call_node is not None else ()
+        for e in (q.events if events is None else events):
             if e.kind == 'return':
                 continue
-            s.events.append(Event(e.kind, e.data, e.node, tuple(s.ctx) + tuple(e.ctx)))
+            s.events.append(Event(e.kind, e.data, e.node, tuple(s.ctx) + mark + tuple(e.ctx)))
         for a in q.assumptions:
             if a not in s.assumptions:
                 s.assumptions.append(a)
@@ -465,6 +469,13 @@ class Evaluator:
 
     def st_With(self, st: ast.With, s: State):
         old = s.ctx
+        # ``with helper(...):`` where helper is an inlinable @contextmanager generator: its
+        # statements before the yield run on entry, those after it on exit (no exception path)
+        if self.inline is not None and len(st.items) == 1 and \
+                isinstance(st.items[0].context_expr, ast.Call):
+            cm = self._context_manager(st, s)
+            if cm is not None:
+                return cm
         for item in st.items:
             ce = self.expr(item.context_expr, s)
             if item.optional_vars is not None:
@@ -473,6 +484,50 @@ class Evaluator:
         outs = self.block(st.body, [s])
         for o in outs:
             o.ctx = old
+        return outs
+
+    def _context_manager(self, st: ast.With, s: State):
+        call = st.items[0].context_expr
+        probe = s.fork()
+        prev_inline, self.inline = self.inline, None        # evaluate the call expression plainly
+        try:
+            f = self.expr(call.func, probe)
+            args = tuple(self.expr(a, probe) for a in call.args
+                         if not isinstance(a, ast.Starred))
+            kws = tuple((k.arg if k.arg is not None else '**', self.expr(k.value, probe))
+                        for k in call.keywords)
+        finally:
+            self.inline = prev_inline
+        tgt = self._inline_target(f, args, kws)
+        if tgt is None:
+            return None
+        fi, cbind = tgt
+        decos = [ast.unparse(d) for d in getattr(fi.node, 'decorator_list', [])]
+        if not any(d.endswith('contextmanager') for d in decos):
+            return None
+        try:
+            sub = Evaluator(self.repo, fi, cbind, self.max_paths, self.loop_unroll,
+                            self.inline, self._depth + 1).run()
+        except AnalysisError:
+            return None
+        rets = [q for q in sub if q.status == 'return' and
+                sum(1 for e in q.events if e.kind == 'yield') == 1]
+        if not rets or len(rets) > 4:
+            return None
+        outs: List[State] = []
+        for q in rets:
+            s2 = s.fork()
+            k = next(i for i, e in enumerate(q.events) if e.kind == 'yield')
+            self._splice(s2, q, call, q.events[:k])
+            if st.items[0].optional_vars is not None:
+                self.assign(st.items[0].optional_vars, q.events[k].data[0], s2, st)
+            for a in q.assumptions:
+                if a not in s2.assumptions:
+                    s2.assumptions.append(a)
+            for b in self.block(st.body, [s2]):
+                if b.status in ('normal', 'return', 'break', 'continue'):
+                    self._splice(b, q, call, q.events[k + 1:])
+                outs.append(b)
         return outs
 
     def st_Try(self, st: ast.Try, s: State):
@@ -780,7 +835,7 @@ class Evaluator:
         if tgt is not None:
             if id(e) in self._forced:
                 q = self._forced[id(e)]
-                self._splice(s, q)
+                self._splice(s, q, e)
                 return q.retval if q.retval is not None else NONE
             fi, cbind = tgt
             try:
@@ -790,9 +845,9 @@ class Evaluator:
                 sub = []
             rets = [q for q in sub if q.status == 'return']
             if len(rets) == 1:
-                self._splice(s, rets[0])
+                self._splice(s, rets[0], e)
                 return rets[0].retval if rets[0].retval is not None else NONE
-            if len(rets) > 1 and e is self._stmt_call and len(rets) <= 8:
+            if len(rets) > 1 and e is self._stmt_call and len(rets) <= 24:
                 raise _ForkInline(e, rets)
         # getattr(obj, 'name') with a constant name is the attribute itself
         if f == ('global', 'builtins.getattr') and len(args) == 2 and not kws and \
